@@ -552,3 +552,89 @@ db_harness!(#[kani::unwind(9)]
 fn mk_db_one_hash_column_plain() -> std::mem::ManuallyDrop<DbInner> {
 	mk_db_one_hash_column()
 }
+
+// ================================================================== U34: a background failure stops the writer: it is recorded once, later
+// commits are refused without leaving a trace, and shutdown does not apply anything further
+db_harness!(#[kani::unwind(5)] u34_first_background_error_is_kept_and_stops_the_workers, {
+	let db = mk_db_one_hash_column();
+	let first_is_err: bool = kani::any();
+	let r1: Result<()> = if first_is_err { Err(Error::Corruption(String::new())) } else { Ok(()) };
+	db.store_err(r1);
+	if first_is_err {
+		assert!(db.bg_err.lock().is_some(), "U34.store_err.failure_is_recorded");
+		assert!(db.shutdown.load(Ordering::SeqCst), "U34.store_err.failure_stops_the_workers");
+	} else {
+		assert!(db.bg_err.lock().is_none() && !db.shutdown.load(Ordering::SeqCst), "U34.store_err.success_changes_nothing");
+	}
+	// a second failure does not replace the first (the first error is the one reported to clients)
+	let first: Option<*const Error> = db.bg_err.lock().as_ref().map(|a| Arc::as_ptr(a));
+	db.store_err(Err(Error::Locked(std::io::Error::from_raw_os_error(11))));
+	let second: Option<*const Error> = db.bg_err.lock().as_ref().map(|a| Arc::as_ptr(a));
+	assert!(second.is_some(), "U34.store_err.failure_is_recorded");
+	if first_is_err {
+		assert!(first == second, "U34.store_err.first_failure_is_kept");
+	}
+	kani::cover!(first_is_err, "reached");
+});
+db_harness!(#[kani::unwind(5)] u34_commit_refused_in_background_error_state_leaves_no_trace, {
+	let db = mk_db_one_hash_column();
+	let failed: bool = kani::any();
+	if failed {
+		*db.bg_err.lock() = Some(Arc::new(Error::Corruption(String::new())));
+	}
+	let rid0: u64 = kani::any();
+	kani::assume(rid0 < u64::MAX);
+	db.commit_queue.lock().record_id = rid0;
+	let r = db.commit_raw(CommitChangeSet::default());
+	let (rid1, n1, b1) = {
+		let q = db.commit_queue.lock();
+		(q.record_id, q.commits.len(), q.bytes)
+	};
+	match r {
+		Ok(()) => {
+			assert!(!failed, "U34.commit_raw.refused_in_background_error_state");
+			assert!(rid1 == rid0 + 1 && n1 == 1, "U34.commit_raw.accepted_commit_takes_the_next_id_and_is_queued");
+		},
+		Err(e) => {
+			assert!(failed, "U34.commit_raw.empty_commit_is_accepted_when_healthy");
+			assert!(matches!(e, Error::Background(_)), "U34.commit_raw.reports_the_background_error");
+			// nothing of the refused transaction remains: no commit id taken, nothing queued
+			assert!(rid1 == rid0 && n1 == 0 && b1 == 0, "U34.commit_raw.refused_commit_takes_no_id_and_is_not_queued");
+			std::mem::forget(e);
+		},
+	}
+	kani::cover!(failed, "reached");
+});
+db_harness!(#[kani::unwind(9)]
+	#[kani::stub(DbInner::process_commits, stub_process_commits)]
+	#[kani::stub(DbInner::flush_logs, stub_flush_logs)]
+	#[kani::stub(DbInner::enact_logs, stub_enact_logs)]
+	#[kani::stub(DbInner::clean_all_logs, stub_clean_all_logs)]
+	#[kani::stub(crate::log::Log::kill_logs, stub_log_kill_logs)]
+	#[kani::stub(crate::log::Log::num_dirty_logs, stub_num_dirty_logs)]
+	#[kani::stub(crate::log::Log::clean_logs, stub_log_clean_logs_bgerr)]
+	u34_shutdown_after_background_error_applies_nothing, {
+	let db = mk_db_one_hash_column();
+	*db.bg_err.lock() = Some(Arc::new(Error::Corruption(String::new())));
+	let (q, a, r0): (u8, u8, u8) = (kani::any(), kani::any(), kani::any());
+	kani::assume(q <= 2 && a <= 2 && r0 <= 2);
+	unsafe {
+		SQ = q;
+		SA = a;
+		SR = r0;
+		SE = 0;
+		CLEAN_ALL_N = 0;
+		CLEAN_ALL_WITH_PENDING = false;
+		KILL_N = 0;
+		KILL_BEFORE_CLEAN = false;
+		BGERR_CLEAN_N = 0;
+		DIRTY = kani::any();
+	}
+	let arc: &'static Arc<DbInner> = Box::leak(Box::new(Arc::new(std::mem::ManuallyDrop::into_inner(mk_db_one_hash_column_plain()))));
+	let r = ok(db.kill_logs(arc));
+	assert!(r.is_some(), "U34.kill_logs.no_error");
+	// the log reader may be in an inconsistent state: no record is applied, no queued commit is logged
+	assert!(unsafe { SE } == 0 && unsafe { SQ } == q && unsafe { SA } == a && unsafe { SR } == r0, "U34.kill_logs.nothing_is_applied_after_a_background_error");
+	assert!(unsafe { CLEAN_ALL_N } == 0 && unsafe { KILL_N } == 0, "U34.kill_logs.log_files_are_kept_for_recovery");
+	kani::cover!(q == 1, "reached");
+});
